@@ -20,3 +20,44 @@ func verifAssumeNoACEBytes(s []byte) {
 		}
 	}
 }
+
+// ---- reference field splitter from the hosts(5) grammar of the statement (shared by C07 and C08) ----
+
+// c07Fields cuts the comment and splits on spaces and tabs.
+func c07Fields(line []byte) (fields []string) {
+	end := len(line)
+	for i := 0; i < len(line); i++ {
+		if line[i] == '#' {
+			end = i
+
+			break
+		}
+	}
+	lo := -1
+	for i := 0; i <= end; i++ {
+		sep := i == end || line[i] == ' ' || line[i] == '\t'
+		switch {
+		case !sep && lo < 0:
+			lo = i
+		case sep && lo >= 0:
+			fields = append(fields, string(line[lo:i]))
+			lo = -1
+		}
+	}
+
+	return fields
+}
+
+func c07EqNames(got []string, want []string) bool {
+	if len(got) != len(want) {
+		return false
+	}
+	for i := range got {
+		if got[i] != want[i] {
+			return false
+		}
+	}
+
+	return true
+}
+
